@@ -159,7 +159,7 @@ def _validate(case, p, rank, df, where) -> CaseInfo:
         require(len(df) == 0, "patterns:none_expected", lambda: where + "\n" + df.to_string())
         return CaseInfo(nontrivial=False, classes=["no_pattern"])
     require(len(df) > 0, "patterns:missing", lambda: f"{where}: expected {want}")
-    got = {r["pattern"]: [int(r["count"]), int(r["GPU kernel duration (us)"]), int(r["CPU op duration (us)"])] for _, r in df.iterrows()}
+    got = {r["pattern"]: [int(r["count"]), float(r["GPU kernel duration (us)"]), float(r["CPU op duration (us)"])] for _, r in df.iterrows()}
     require(len(got) == len(df), "patterns:duplicate_rows", lambda: df.to_string())
     tot = lambda dct: [sum(v[i] for v in dct.values()) for i in range(3)]  # noqa: E731
     require(tot(got) == tot(want), "patterns:totals", lambda: f"{where}: rank {rank} op {p['op']!r} min_len {p['min_len']}: got {got}, expected {want}")
@@ -188,7 +188,7 @@ def _validate(case, p, rank, df, where) -> CaseInfo:
 
 @st.composite
 def c16_case(draw):
-    o = Opts(fractional_stamps=True, python_frames=True, steps=[0, 1, 2, 3], w_sync=0, p_zero_op=0, allow_zero_call=False, second_thread=True, autograd=False, device_sync=False,
+    o = Opts(fractional_stamps=True, unrounded=True, python_frames=True, steps=[0, 1, 2, 3], w_sync=0, p_zero_op=0, allow_zero_call=False, second_thread=True, autograd=False, device_sync=False,
              annotations=True, w_launch=6, max_top=3, max_depth=2, streams=2, body_fn=template_body, kernel_names=KNAMES)
     case = draw(sim_case(o, max_ranks=2, extras_trace_span=True, nranks_choices=[2, 1]))
     rank = draw(st.sampled_from([r["rank"] for r in case["ranks"]]))
